@@ -44,7 +44,10 @@ def runs(draw, tier):
     return {"state": sc, "rows": rows, "pbs": pbs, "nbs": nbs,
             "k": k, "lr": draw(st.floats(1e-3, 1.0, allow_nan=False, width=64)), "epochs": draw(st.integers(1, 3)),
             "gamma": draw(st.one_of(st.none(), st.floats(0.1, 0.9, allow_nan=False, width=64))), "torch_seed": draw(st.integers(0, 2 ** 31 - 1)),
-            "se": draw(st.sampled_from([1, 1, 0, 2, 3, 5]))}
+            "se": draw(st.sampled_from([1, 1, 0, 2, 3, 5])),
+            # staged training: a second fit() on the same model with another learning rate, re-using the caller's optimizer_args dict
+            "stage2_lr": draw(st.one_of(st.none(), st.floats(1e-3, 1.0, allow_nan=False, width=64))),
+            "opt_args": draw(st.sampled_from(["none", "empty_dict", "momentum0"]))}
 
 
 NAMES = {"weights": "W", "weights_W": "W", "weights_U": "U", "visible_bias": "b", "hidden_bias": "c", "aux_bias": "d"}
@@ -119,13 +122,34 @@ def check(case):
         kw.update(scheduler=torch.optim.lr_scheduler.StepLR, scheduler_args={"step_size": 1, "gamma": case["gamma"]})
     if t != "positive":
         kw["input_bases"] = bases
+    oargs = {"none": None, "empty_dict": {}, "momentum0": {"momentum": 0.0}}[case.get("opt_args", "none")]
+    oargs_keep = None if oargs is None else dict(oargs)
+    if oargs is not None:
+        kw["optimizer_args"] = oargs
     state.fit(data, **kw)
+    lr_of_step = [case["lr"]] * len(log["steps"])
+    stage1_steps = len(log["steps"])
+    stage1_epochs = len(log["epochs"])
+    if case.get("stage2_lr") is not None and not diverged[0]:
+        kw2 = dict(kw, lr=case["stage2_lr"], epochs=1, starting_epoch=1)
+        state.fit(data, **kw2)
+        lr_of_step += [case["stage2_lr"]] * (len(log["steps"]) - stage1_steps)
+    if oargs is not None:
+        require(oargs == oargs_keep, "optimizer_args-mutated", f"fit() modified the caller's optimizer_args dict: {oargs} (was {oargs_keep})")
 
     if diverged[0]:
         return {"nontrivial": False, "excluded": 1, "labels": ["diverged"]}
     nb = -(-N // case["pbs"])
     steps = log["steps"]
-    require(len(steps) == nb * case["epochs"], "step-count", f"{len(steps)} optimizer steps for {case['epochs']} epoch(s) of {nb} batch(es): exactly one step per batch expected")
+    total_epochs = case["epochs"] + (1 if case.get("stage2_lr") is not None else 0)
+    require(len(steps) == nb * total_epochs, "step-count", f"{len(steps)} optimizer steps for {total_epochs} epoch(s) of {nb} batch(es): exactly one step per batch expected")
+    # every positive batch row is a row of the training data, each epoch uses each row once (C07's statement; asserted here because
+    # the reference gradient below is computed from the batch the library actually used)
+    from collections import Counter
+    want_rows = Counter(tuple(int(x) for x in r) for r in data.tolist())
+    for ep_i in range(total_epochs):
+        got_rows = Counter(tuple(int(x) for x in r) for bt_ in log["batches"][ep_i * nb:(ep_i + 1) * nb] for r in bt_["pos"].tolist())
+        require(got_rows == want_rows, "positive-batches-not-the-data", f"epoch #{ep_i + 1}: the positive batches are not the training rows")
     require(len(log["batches"]) == len(steps) and len(log["vk"]) == len(steps), "call-count", "one gradient computation and one Gibbs chain per step expected")
     nbs = case["nbs"] or case["pbs"]
     followed = 0
@@ -133,7 +157,9 @@ def check(case):
     rotated_seen = False
     for ti, (stp, bt, ch) in enumerate(zip(steps, log["batches"], log["vk"])):
         ep = stp["epoch"]
-        want_lr = case["lr"] * (case["gamma"] ** (ep - 1) if case["gamma"] is not None else 1.0)
+        stage2 = ti >= stage1_steps
+        ep_in_stage = ep - stage1_epochs if stage2 else ep
+        want_lr = lr_of_step[ti] * (case["gamma"] ** (ep_in_stage - 1) if case["gamma"] is not None else 1.0)
         require(abs(stp["lr"] - want_lr) <= 1e-12 * want_lr, "lr-schedule",
                 f"step {ti} (epoch #{ep}): learning rate {stp['lr']} but expected {want_lr} (scheduler must advance exactly once per epoch)")
         require(bt["k"] == case["k"] and ch["k"] == case["k"], "k", "wrong number of Gibbs steps requested")
@@ -180,7 +206,7 @@ def check(case):
     nt = (nbs != case["pbs"]) and tail and case["k"] >= 1 and followed >= 2 and (t == "positive" or rotated_seen) and gen.all_biases_nonzero(sc)
     return {"nontrivial": nt, "excluded": excluded,
             "labels": [f"type={t}"] + (["neg!=pos"] if nbs != case["pbs"] else []) + (["tail_batch"] if tail else []) + ([f"k={case['k']}"]) +
-                      (["scheduler"] if case["gamma"] is not None else []) + ([f"starting_epoch={se}"] if se != 1 else []) + (["multi_epoch"] if case["epochs"] > 1 else [])}
+                      (["scheduler"] if case["gamma"] is not None else []) + ([f"starting_epoch={se}"] if se != 1 else []) + (["multi_epoch"] if case["epochs"] > 1 else []) + (["two_stage"] if case.get("stage2_lr") is not None else []) + ["opt_args=" + case.get("opt_args", "none")]}
 
 
 SUBCHECKS = [Sub("cd_update", check, strategy=lambda tier: runs(tier), quick=320, thorough=6000)]
